@@ -386,3 +386,15 @@ class MEnd(object):
         break
       self.buf.append(v)
     return min(k, len(self.buf))
+
+
+def m_attack(ins, len_a, len_d):
+  """ attack(a, d, sustain stream): the first sustain value defines the decay
+  slope (read with the first output), the rest is one read per sample. """
+  i = iter(ins[0])
+  if nxt(i) is END:
+    return
+  for _ in range(len_a + len_d):
+    yield None
+  for v in i:
+    yield None
